@@ -45,7 +45,7 @@ PATH_ARGS = [
     ("$path", P((("list", ("lit", 0), None, None), ("map", ("lit", 1.5), None, "L")))),
 ]
 PATHLIKE = [{"path": ["b"]}, {"path.length": ["b"]}, {"Path": ["b"]}, {"path": 1, "x": 2}, {"a": {"path": ["b"]}},
-            {"pathological": 1}, [{"path": ["b"]}, 1]]
+            {"pathological": 1}, [{"path": ["b"]}, 1], {"path": "ab"}, {"Path.length": {"k": 1}}, {"path": None}, {"path.first": 3}]
 SRC = {"a": 1, "b": [1, 2], "m": {"x": {"k": 1}}, "lst": [0, 1, 1], "lo": 0}
 
 
